@@ -82,7 +82,7 @@ Definition srv_op (s : server) (op : list tok) : list tok * server :=
         match rest with
         | TI c :: TI t :: chunks =>
             match zlookup c (s_conns s) with
-            | None => ([TI 1], s)
+            | None => ([TB (bs "CLOSED")], s)
             | Some _ =>
                 match conn_feed t s c (conn_buf c bufs) (dec_chunks chunks) [] with
                 | (out, buf', s', closed) =>
